@@ -166,6 +166,10 @@ def call_fn(w, num_workers=None, as_path=False):
 # ----------------------------------------------------------------------------------------------
 # oracle
 # ----------------------------------------------------------------------------------------------
+class HistoryEnded(Exception):
+    """the leftover clause had to re-run the history on a wiped local folder: nothing more can be asked of this history"""
+
+
 class State:
     """what the harness knows about the history of the local folder (black box: only call outcomes)"""
 
@@ -180,6 +184,9 @@ class State:
         self.expected = expected
         self.w = w
         self.allowed_extras = None  # top-level non-source files an UNINTERRUPTED automatic copy leaves behind (its markers)
+        self.suspects = set()  # top-level non-source files created by interrupted attempts and not rewritten / removed since
+        self.pending_left = None
+        self.trail = []  # (callable, fault, list seed, sched seed) of every attempt of this history
 
 
 def judge(out, st, att, dst, src_before, src_after, history, site):
@@ -187,10 +194,15 @@ def judge(out, st, att, dst, src_before, src_after, history, site):
     from simkit.simfs import snapshot
     if src_before != src_after:
         out.violate("C20:source-modified", site, f"history={history}")
+    tree = snapshot(dst)
     if att["status"] != "ok":
+        if tree is not None:
+            st.suspects |= {k for k, v in tree.items() if "/" not in k and v is not None and k not in st.expected and k not in st.before_paths}
         return
     res = att["result"]
-    tree = snapshot(dst)
+    # whatever this (normally returning) call wrote, created, renamed or removed itself is its own business, not a leftover
+    mine = {p[len(dst) + 1:] for e in att["log"] for p in e[1].split("->") if p.startswith(dst + "/")}
+    st.suspects -= mine
     n_mut = att["prims"]
     # only the removal of something an EARLIER attempt left behind obliges was_deleted=True (an implementation may
     # create and remove its own temporary entries); only data / the folder itself count as "redone or touched"
@@ -222,12 +234,11 @@ def judge(out, st, att, dst, src_before, src_after, history, site):
         # recovery equivalence: whatever else lies in the folder must be what an uninterrupted copy leaves there too (markers);
         # a staging file or temporary entry of a killed attempt that survives completion makes the folder differ from the source
         extras = {k for k, v in tree.items() if "/" not in k and v is not None and k not in st.expected}
-        left = sorted(extras - st.allowed_extras)
+        # ... and only entries created by an interrupted attempt that no normally returning call has rewritten or removed since
+        left = sorted(k for k in extras - st.allowed_extras if k in st.suspects)
         if left:
-            out.violate("C20:leftover-of-interrupted-attempt-survives", site,
-                        f"history={history} result={res}: {left[:4]} (sizes {[len(tree[k]) for k in left[:4]]}) - an uninterrupted copy "
-                        f"leaves only {sorted(st.allowed_extras)}")
-            return
+            # decided by the caller (needs a re-run of the history with the last interrupted attempt NOT interrupted)
+            st.pending_left = (left, {k: len(tree[k]) for k in left}, res, list(history))
     if st.completed:
         if touched_data:
             out.violate("C20:completed-copy-redone-or-touched", site,
@@ -407,6 +418,23 @@ class Spec(core.PropSpec):
                 cu.joblib = saved
         return out
 
+    def _unkilled_extras(self, m, w, st, expected, role):
+        """top-level non-source files after the same history in which the LAST interrupted attempt runs to completion instead"""
+        from simkit.simfs import snapshot
+        gp, lp, src, dst = paths(w)
+        last = max((i for i, t in enumerate(st.trail) if t[1] is not None), default=None)
+        if last is None or any(t[4] for t in st.trail[:last + 1]):
+            return None
+        wipe_local(m, w)
+        for i, (use, fault, lseed, sseed, _) in enumerate(st.trail[:last + 1]):
+            att = m.attempt(use, None if i == last else fault, list_seed=lseed, sched_seed=sseed, classify=role)
+        if att["status"] != "ok":
+            return None
+        tree = snapshot(dst)
+        if tree is None:
+            return None
+        return {k for k, v in tree.items() if "/" not in k and v is not None and k not in expected}
+
     def _run(self, plan, w, m, expected, out):
         from simkit.simfs import snapshot
         gp, lp, src, dst = paths(w)
@@ -442,6 +470,7 @@ class Spec(core.PropSpec):
                         fh.write(data[:max(1, int(len(data) * plan_fault["keep"]))])
                     restore = (zp, data)
                     out.count("fault:source_zip_truncated_during_attempt")
+            st.trail.append((use, fault, f"{ls}/{counter[0]}", f"{ss}/{counter[0]}", plan_fault is not None and plan_fault.get("kind") == "corrupt"))
             att = m.attempt(use, fault, list_seed=f"{ls}/{counter[0]}", sched_seed=f"{ss}/{counter[0]}", classify=role)
             if restore is not None:
                 with open(restore[0], "wb") as fh:
@@ -464,6 +493,19 @@ class Spec(core.PropSpec):
             judge(out, st, att, dst, src_snap, snapshot(src_root), history, site)
             if att["status"] == "ok":
                 self._judged = True
+            if st.pending_left is not None:
+                left, sizes, res_, hist_ = st.pending_left
+                st.pending_left = None
+                star = self._unkilled_extras(m, w, st, expected, role)
+                out.count("leftover_clause_reruns")
+                if star is not None:
+                    real = [k for k in left if k not in star]
+                    if real:
+                        out.violate("C20:leftover-of-interrupted-attempt-survives", site,
+                                    f"history={hist_} result={res_}: {real[:4]} (sizes {[sizes[k] for k in real[:4]]}) were created by an attempt "
+                                    f"that was killed, are still there after completion, and would not be there had that attempt not been "
+                                    f"killed (then: {sorted(star)})")
+                raise HistoryEnded()
             return att, history
 
         self._fired_inside = False
@@ -489,10 +531,13 @@ class Spec(core.PropSpec):
         if plan["mode"] == "sequence":
             st = State(w, expected)
             hist = []
-            for f in plan["attempts"]:
-                att, hist = do(st, f, hist, "faulty")
-            for i in range(plan["clean_calls"]):
-                att, hist = do(st, None, hist, "clean")
+            try:
+                for f in plan["attempts"]:
+                    att, hist = do(st, f, hist, "faulty")
+                for i in range(plan["clean_calls"]):
+                    att, hist = do(st, None, hist, "clean")
+            except HistoryEnded:
+                pass
             out.nontrivial = self._fired_inside and self._judged
             return
         # ---- sweep ----
@@ -516,6 +561,7 @@ class Spec(core.PropSpec):
         out.count("sweep:single_crash_points_enumerated", sum(1 for p in points if p[0] == "k"))
         out.count("sweep:io_error_points_enumerated", sum(1 for p in points if p[0] == "e"))
         for pt in points:
+          try:
             wipe_local(m, w)
             st = State(w, expected)
             if pt[0] in ("k", "t", "e"):
@@ -535,12 +581,17 @@ class Spec(core.PropSpec):
                 n2 = att["prims"]
                 out.count("sweep:double_crash_points_enumerated", n2)
                 for k2 in range(n2):
-                    wipe_local(m, w)
-                    st = State(w, expected)
-                    att, hist = do(st, dict(kind="kill", at=pt[1]), [], "faulty")
-                    att, hist = do(st, dict(kind="kill", at=k2), hist, "faulty")
-                    att, hist = do(st, None, hist, "clean")
-                    att, hist = do(st, None, hist, "clean")
+                    try:
+                        wipe_local(m, w)
+                        st = State(w, expected)
+                        att, hist = do(st, dict(kind="kill", at=pt[1]), [], "faulty")
+                        att, hist = do(st, dict(kind="kill", at=k2), hist, "faulty")
+                        att, hist = do(st, None, hist, "clean")
+                        att, hist = do(st, None, hist, "clean")
+                    except HistoryEnded:
+                        pass
+          except HistoryEnded:
+            pass
         out.nontrivial = self._fired_inside and self._judged
 
 
